@@ -12,6 +12,6 @@ echo "[without change] demo:"; go test "$@" -vet=off -count=1 -run "$RE" ./$PKG/
 git apply $SEED/patch.diff || { echo "patch does not apply"; exit 1; }
 echo "[with change] build:"; go build ./... && echo ok
 echo "[with change] demo:"; go test "$@" -vet=off -count=1 -run "$RE" ./$PKG/ 2>&1 | grep -E "^(--- FAIL|FAIL|ok|panic|fatal)" | head -5
-rm -f $PKG/c[0-9][0-9]_*_test.go
+for f in $SEED/demo/*_test.go; do rm -f $PKG/$(basename $f); done
 echo "[with change] existing suite:"; go test -vet=off -count=1 ./... 2>&1 | grep -v "no test files" | grep -v "^ok" | head -5; echo "(suite done)"
 git checkout -q -- . ; git clean -fdq; rm -rf /tmp/test-crl-dir-* /tmp/leveldbtest*
